@@ -520,6 +520,10 @@ def run_unit(seed=None, unit=None, tier="quick", stats=None):
     incremental = ptape.draw(4, "incr") != 0
     focus = unit.get("focus") if unit is not None else (
         (FOCUS_CYCLE[seed[2] % len(FOCUS_CYCLE)]))
+    if unit is None and focus == "background" and (seed[2] // len(FOCUS_CYCLE)) % 2:
+        # the same plan family, but the consumer closes the stream while background-settled work
+        # is still arriving (early execution on)
+        focus = "bgclose"
     if focus == "nullroot":
         stop_kind = "none"
         incremental = True
@@ -532,13 +536,17 @@ def run_unit(seed=None, unit=None, tier="quick", stats=None):
     if focus == "background":
         stop_kind = "none"
         incremental = True
+    if focus == "bgclose":
+        stop_kind = "aclose"
+        incremental = True
     if focus == "earlyclose":
         # early execution, consumer closes before / right after the first payload, and whatever
         # is in flight at that instant never completes by itself
         stop_kind = "aclose"
         incremental = True
     scn = build_scenario(ptape, incremental=incremental, max_requests=2, want_r0=True,
-                         allow_hang=stop_kind == "abort", focus=focus,
+                         allow_hang=stop_kind == "abort",
+                         focus="background" if focus == "bgclose" else focus,
                          max_depth=5 if big else 4, budget=36 if big else 24)
     info = {"pairs": [], "digest": None, "sample": None, "render": None}
     if not scn.requests:
@@ -587,7 +595,7 @@ def run_unit(seed=None, unit=None, tier="quick", stats=None):
         r_eff = r if r < n else 0  # sweep runs repeat schedule 0 (and replay as schedule 0)
         sim, reqs, results, status, knobs, al, stops = run_incremental(
             scn, st, stop_factory=factory, lenient=True,
-            force_early=(True if focus in ("earlyclose", "streamfail")
+            force_early=(True if focus in ("earlyclose", "streamfail", "bgclose")
                          else r_eff != 2 if focus == "nullroot"
                          else True if focus == "background" and r_eff == 1
                          else False if focus == "abortstream" and r_eff != 1 else None),
